@@ -192,6 +192,43 @@ def probe_d7():
     return bad, what
 
 
+def probe_d7c():
+    """a subclass that gives an inherited event a second name renames it in the base class"""
+    from statemachine import State, StateMachine
+    with warnings.catch_warnings():
+        warnings.simplefilter("ignore")
+
+        class Base(StateMachine):
+            a = State(initial=True)
+            b = State()
+            go = a.to(b)
+            back = b.to(a)
+
+        before = [t.event for t in Base.a.transitions]
+        old = Base()
+        old.go()
+        old.back()
+
+        class Sub(Base):
+            again = Base.go
+
+        after = [t.event for t in Base.a.transitions]
+        what = f"Base.a.transitions events {before} -> {after}"
+        bad = after != before
+        for label, sm in (("an instance made before the subclass", old), ("Base()", Base())):
+            try:
+                sm.go()
+            except Exception as e:
+                what += f"; {label}: go() -> {type(e).__name__}"
+                bad = True
+        try:
+            Base().allowed_events
+        except AttributeError:
+            what += "; Base().allowed_events raises AttributeError"
+            bad = True
+    return bad, what
+
+
 def make_world(seed, i):
     rng = random.Random(f"{seed}:C16:{i}")
     P = PROFILE_ASYNC if rng.random() < 0.35 else PROFILE
@@ -568,7 +605,8 @@ def run(ctx):
     ctx.coverage["rule"] = RULE
     ctx.assumptions += [
         "worlds never contain a subclass that declares a transition whose source is an inherited state "
-        "(known finding D7); that shape is probed and reported separately",
+        "(known finding D7) or gives an inherited event a second name (known finding D7c); those shapes are probed "
+        "and reported separately",
         "the comparison `alone` is the Lean model of the instance (C16_frame) and a solo run on the implementation "
         "in the same process",
         "cross-machine nesting is generated between machines with plain (non-coroutine) callbacks only",
@@ -602,6 +640,13 @@ def run(ctx):
             ctx.known_printed.append(known[key]["what"] + " [" + what + "]")
         else:
             ctx.violation(ctx.write_replay("d7.txt", what + "\n"), "subclass transition mutates the base class")
+    bad, what = probe_d7c()
+    if bad:
+        key = "subclass-aliases-inherited-event"
+        if key in known:
+            ctx.known_printed.append(known[key]["what"] + " [" + what + "]")
+        else:
+            ctx.violation(ctx.write_replay("d7c.txt", what + "\n"), "a subclass aliasing an inherited event renames it in the base class")
     target = 260 if ctx.tier == "quick" else 8000
     stats = dict(worlds=0, members=0, spec=0, corr=0, cross_done=0, ops=0)
     dist = {}
